@@ -214,7 +214,7 @@ func max64(a, b int64) int64 {
 }
 
 func init() {
-	register("C15", []string{"./gossip", "./notaryserver", "./webhooksserver", "./transformers", "./wallet", "./cache", "./accountant"},
+	register("C15", []string{"./gossip", "./notaryserver", "./webhooksserver", "./transformers", "./wallet", "./cache", "./accountant", "./webhooks"},
 		"Structural necessary conditions of 'no protobuf-decodable request can crash a node', decided for all message shapes at once: every slice→array conversion in the wire-facing packages "+
 			"is dominated by a length test on the same access path (directly, through a validator's ensures-summary, or established by every caller), every dereference through an optional "+
 			"sub-message pointer is dominated by a nil test, constant/len-relative slice bounds are covered by length facts, and in every handler no signature/challenge validation is reachable "+
@@ -324,6 +324,9 @@ func runC15(w *World, r *Report) {
 
 	// a vertex the ledger rejects leaves no reservation behind (the ledger side of "a rejected request changes nothing")
 	rollbackReservation(w, r, "rejected-admission-leaves-no-index-entry")
+
+	// shared tables are only touched under their lock (an unsynchronised map access aborts the process)
+	tablesUnderLock(w, r, "shared-table-under-lock")
 
 	// validate before mutate
 	r.rule("validate-before-mutate", "in every handler (and the helpers it calls directly) no signature / challenge / shape validation is reachable after a call with ledger, awaiting-cache or peer-table effects", 8)
